@@ -28,6 +28,11 @@ impl Rng {
     pub fn bytes(&mut self, n: usize) -> Vec<u8> {
         (0..n).map(|_| self.next() as u8).collect()
     }
+    /// `lo + below(span)` random bytes
+    pub fn rbytes(&mut self, lo: usize, span: u64) -> Vec<u8> {
+        let n = lo + self.below(span) as usize;
+        self.bytes(n)
+    }
     pub fn shuffle<T>(&mut self, xs: &mut Vec<T>) {
         for i in (1..xs.len()).rev() {
             let j = self.below(i as u64 + 1) as usize;
